@@ -919,7 +919,7 @@ class LegCharge:
             assert chinfo == chargeinfo
             chinfo = chargeinfo
         if isinstance(charge, str):
-            charge = chinfo.names.index(charge)
+            charge = leg.chinfo.names.index(charge)  # index in the ChargeInfo *before* dropping
         return cls.from_qind(chinfo, leg.slices, np.delete(leg.charges, charge, 1), leg.qconj)
 
     @classmethod
